@@ -101,6 +101,27 @@ def run(ctx):
         if r:
             ctx.report('pronto', 'theorem hypothesis %s does not hold for the computed words' % r, dict(n=len(data)),
                        dict(freq=freq, data=data, pronto=s))
+    # ---- a hex string with a once-sequence AND a repeat-sequence: each part must decode as it does on its own
+    for i in range(200 if ctx.tier == 'quick' else 4000):
+        freq, d1 = gen_list(rng, False)
+        _, d2 = gen_list(rng, False)
+        try:
+            w1 = pronto.rlc_to_pronto(freq, list(d1)).split(' ')
+            w2 = pronto.rlc_to_pronto(freq, list(d2)).split(' ')
+            alone1 = pronto.pronto_to_rlc(' '.join(w1))[1]
+            alone2 = pronto.pronto_to_rlc(' '.join(w2))[1]
+            both = ' '.join(w1[:2] + [w1[3], w2[3]] + w1[4:] + w2[4:])        # rlc_to_pronto writes its pair count into word 3
+            nrep = rng.choice([0, 0, 1, 2])
+            got = pronto.pronto_to_rlc(both, nrep)[1]
+        except Exception as e:  # noqa
+            ctx.report('pronto', 'conversion raises ' + type(e).__name__, dict(odd=False, n=len(d1) + len(d2)),
+                       dict(freq=freq, once=d1, repeat=d2))
+            continue
+        ctx.count_eval(key=('two', freq, tuple(d1[:4]), tuple(d2[:4]), len(d1), len(d2)))
+        want = [list(alone1[0]), list(alone2[0])] + [list(alone2[0])] * nrep
+        if [list(x) for x in got] != want:
+            ctx.report('pronto', 'once/repeat sequences of one hex string decode differently than on their own', dict(n=len(d1) + len(d2)),
+                       dict(freq=freq, once=d1, repeat=d2, pronto=both, repeat_count=nrep, decoded=[list(x) for x in got][:4], expected=want[:4]))
     bad = vlib.run_model_cases(ctx, 'corr_pronto', 'Require Import PyIR.Util.Pronto.', 'run_pronto', '(Z * list Z)', cases,
                                shard=100, timeout=900)
     if bad is None:
